@@ -50,6 +50,15 @@ CHECKS["C09"] = dict(level="exploration", design="5/C09",
    text="3.2 million base programs of the scope slice (nested blocks, shadowing at every depth, re-declaration, named functions in blocks and in functions, calls) up to 6 nodes plus a nested-function directed family, and 15.5 million variant runs in the quick tier: consistent renaming and unused-declaration padding must not change value/output/error; an undeclared name anywhere must give a reference error before any output; the base outcome must equal the reference interpreter's.",
    note="trusted: refint::Resolver (static resolution rules of DESIGN 4.2), the AST surgery of astx.rs; programs the model marks unspecified (U1/U2/U6/U7) are not used as bases")
 
+CHECKS["C10"] = dict(level="exploration", design="5/C10",
+   technique="bounded-exhaustive enumeration of closed programs, each compared with all of its semantics-preserving variants (wrap into a function, literal to variable, mirrored operands, prepended constant-pool-shifting statements, bystander literals) on the real pipeline; metamorphic oracle, no reference model in the comparison",
+   text="664 000 base programs and 10 million variant runs in the quick tier; every variant must agree with its base program on value, output and error kind. 1.7 million variants compile to a different set of opcode kinds than their base (the fused, local and global opcode families are all exercised against each other).",
+   note="trusted: the transformations of props/c10.rs preserve meaning under DESIGN 4.2; programs the model marks unspecified are not used as bases; the base itself is checked against the model by C01")
+CHECKS["C11"] = dict(level="exploration", design="5/C11",
+   technique="bounded-exhaustive enumeration of control-flow templates compared with the reference interpreter, iteration-count ladders (0, 1, 2, 100, 70 000) with probe suffixes, and explicit-state cycle analysis of each program's real bytecode (no reachable cycle of the abstract stack machine may grow the stack)",
+   text="1.28 million programs in the quick tier: all statement trees over blocks, if/else, counter loops (0, 1, 3 iterations), immediately applied function bodies with numbered trace points, stop, volgende, antwoord, declarations and empty blocks in every position (top level and inside a function), every early exit in every expression context, and every loop-body template iterated 0..70 000 times before a probe; trace, value and error must equal the reference interpreter's, and the abstract stack machine of each program (44 million states) must have no stack-growing cycle.",
+   note="trusted: refint control-flow rules; bcmc stack-effect table; known finding KF-C11-01 (early exit with pending operands) is matched by a structural predicate on the program, any other growing cycle is a violation")
+
 NOT_YET = {}
 props = [json.loads(l) for l in open("/verif/properties.jsonl")]
 checks = []
